@@ -283,3 +283,162 @@ Proof.
     rewrite Hc, N.eqb_refl. cbn [s_data s_ts]. repeat split; try reflexivity.
     intros now' l. apply G. reflexivity.
 Qed.
+
+(* ---- a port's candidate frame after a history ---- *)
+(* What one call does to the view "is port i patched, and what does the port object hold" - written
+   per call kind, independent of the universe's merge. *)
+Definition port_view_step (i : N) (v : bool * port) (o : op) : bool * port :=
+  let (patched, q) := v in
+  let with_static x := {| p_src := p_src q; p_static := x; p_inherit := p_inherit q;
+                          p_inherited := p_inherited q; p_caps := p_caps q |} in
+  let with_mode b := {| p_src := p_src q; p_static := p_static q; p_inherit := b;
+                        p_inherited := p_inherited q; p_caps := p_caps q |} in
+  match o with
+  | AddInput j => if j =? i then (true, q) else v
+  | RemoveInput j => if j =? i then (false, q) else v
+  | PortData j d ts _ =>
+    if (j =? i) && patched
+    then (patched, {| p_src := {| s_data := dmx_set d; s_ts := ts; s_prio := port_priority q |};
+                      p_static := p_static q; p_inherit := p_inherit q;
+                      p_inherited := p_inherited q; p_caps := p_caps q |})
+    else v
+  | SetPortPrio j p => if (j =? i) && negb (SOURCE_PRIORITY_MAX <? p) then (patched, with_static p) else v
+  | SetPortMode j b => if j =? i then (patched, with_mode b) else v
+  | SetInherited j p =>
+    if j =? i then (patched, {| p_src := p_src q; p_static := p_static q; p_inherit := p_inherit q;
+                                p_inherited := p; p_caps := p_caps q |}) else v
+  | SetCaps j b =>
+    if j =? i then (patched, {| p_src := p_src q; p_static := p_static q; p_inherit := p_inherit q;
+                                p_inherited := p_inherited q; p_caps := b |}) else v
+  | MgrStatic j x =>
+    if j =? i
+    then (patched, {| p_src := p_src q; p_static := N.min x SOURCE_PRIORITY_MAX;
+                      p_inherit := if p_caps q then false else p_inherit q;
+                      p_inherited := p_inherited q; p_caps := p_caps q |})
+    else v
+  | MgrInherit j =>
+    if j =? i then (patched, with_mode (if p_caps q then true else p_inherit q)) else v
+  | _ => v
+  end.
+Definition port_view (w : world) (i : N) : bool * port := (mem i (u_inputs (w_u w)), w_ports w i).
+
+Lemma mem_vec_add i j l : mem i (vec_add j l) = (j =? i) || mem i l.
+Proof.
+  unfold vec_add. destruct (mem j l) eqn:M.
+  - destruct (j =? i) eqn:E; [apply N.eqb_eq in E; subst; rewrite M|]; reflexivity.
+  - unfold mem. rewrite existsb_app. cbn [existsb]. rewrite orb_false_r, orb_comm.
+    rewrite (N.eqb_sym i j). reflexivity.
+Qed.
+Lemma mem_vec_remove i j l : NoDup l -> mem i (vec_remove j l) = negb (j =? i) && mem i l.
+Proof.
+  unfold mem.
+  induction 1 as [|x l Hx Hl IH]; cbn [vec_remove]; [rewrite andb_false_r; reflexivity|].
+  destruct (x =? j) eqn:E.
+  - apply N.eqb_eq in E. subst x. cbn [existsb].
+    destruct (j =? i) eqn:E2.
+    + apply N.eqb_eq in E2. subst i. cbn [negb andb].
+      destruct (existsb (N.eqb j) l) eqn:M; [|reflexivity].
+      exfalso. apply Hx. apply mem_In. exact M.
+    + rewrite (N.eqb_sym i j), E2. reflexivity.
+  - cbn [existsb]. rewrite IH.
+    destruct (j =? i) eqn:E2; cbn [negb andb]; [|reflexivity].
+    apply N.eqb_eq in E2. subst i. rewrite (N.eqb_sym j x), E. reflexivity.
+Qed.
+
+Lemma step_inputs w o :
+  u_inputs (w_u (fst (step w o))) =
+  match o with
+  | AddInput j => vec_add j (u_inputs (w_u w))
+  | RemoveInput j => vec_remove j (u_inputs (w_u w))
+  | _ => u_inputs (w_u w)
+  end.
+Proof.
+  destruct (apply_update w o) as [[[chg now] w1]|] eqn:A.
+  - destruct (step_spec _ _ _ _ _ A) as (_ & _ & _ & _ & Ei & _). rewrite Ei.
+    destruct o; cbn [apply_update] in A; try discriminate;
+      try (destruct (mem i (u_inputs (w_u w))); [|discriminate]);
+      inversion A; subst; reflexivity.
+  - unfold step. rewrite A.
+    destruct o; cbn [apply_update] in A; try discriminate; cbn [fst admin_step]; try reflexivity;
+      try (destruct (SOURCE_PRIORITY_MAX <? _); reflexivity);
+      try (unfold set_dmx; destruct (len _ =? 0); reflexivity).
+Qed.
+
+Lemma step_port_view w o i :
+  NoDup (u_inputs (w_u w)) -> port_view (fst (step w o)) i = port_view_step i (port_view w i) o.
+Proof.
+  intros Hnd. unfold port_view. rewrite step_inputs.
+  assert (Hp : w_ports (fst (step w o)) i = snd (port_view_step i (mem i (u_inputs (w_u w)), w_ports w i) o)).
+  { destruct (apply_update w o) as [[[chg now] w1]|] eqn:A.
+    - destruct (step_spec _ _ _ _ _ A) as (_ & _ & _ & _ & _ & _ & _ & _ & Ep & _). rewrite Ep.
+      destruct o; cbn [apply_update] in A; try discriminate.
+      + destruct (mem i0 (u_inputs (w_u w))) eqn:M; [|discriminate]. inversion A; subst. clear A.
+        cbn [with_port w_ports port_view_step]. unfold upd. rewrite (N.eqb_sym i i0).
+        destruct (i0 =? i) eqn:E; cbn [andb snd]; [|reflexivity].
+        apply N.eqb_eq in E. subst i0. rewrite M. reflexivity.
+      + destruct (mem i0 (u_inputs (w_u w))); [|discriminate]. inversion A; subst. reflexivity.
+      + inversion A; subst. reflexivity.
+      + inversion A; subst. reflexivity.
+    - destruct (op_is_setdmx o) as [[d ->]|Hn].
+      + unfold step. cbn [apply_update]. unfold set_dmx. destruct (len (dmx_set d) =? 0); reflexivity.
+      + destruct (step_none _ _ A) as [(d & -> & _)|E]; [exfalso; eapply Hn; reflexivity|]. rewrite E. cbn [fst].
+        destruct o; cbn [apply_update] in A; try discriminate;
+          cbn [admin_step with_u with_port w_ports port_view_step snd]; unfold upd;
+          try reflexivity;
+          try (destruct (mem _ (u_inputs (w_u w))); [discriminate|]; rewrite ?andb_false_r; reflexivity);
+          try (rewrite (N.eqb_sym i _));
+          try (destruct (_ =? i) eqn:E1; cbn [snd andb]; [apply N.eqb_eq in E1; subst|]; try reflexivity).
+        * destruct (mem i (u_inputs (w_u w))); [discriminate|]. reflexivity.
+        * destruct (SOURCE_PRIORITY_MAX <? p); cbn [negb snd with_port w_ports]; [reflexivity|].
+          unfold upd. rewrite N.eqb_refl. reflexivity.
+        * destruct (SOURCE_PRIORITY_MAX <? p); cbn [with_port w_ports]; [reflexivity|].
+          unfold upd. rewrite (N.eqb_sym i i0), E1. reflexivity.
+        * f_equal.
+          -- change SOURCE_PRIORITY_MAX with 200.
+             destruct (p_static (w_ports w i) =? (if 200 <? v then 200 else v)) eqn:E9;
+               [apply N.eqb_eq in E9; rewrite E9|]; destruct (200 <? v) eqn:C;
+               rewrite ?N.ltb_lt, ?N.ltb_ge in C; lia.
+          -- destruct (p_caps (w_ports w i)), (p_inherit (w_ports w i)); reflexivity.
+        * destruct (p_caps (w_ports w i)), (p_inherit (w_ports w i)); reflexivity. }
+  rewrite Hp.
+  destruct o; cbn [port_view_step]; try reflexivity;
+    try (destruct (_ =? i); reflexivity);
+    try (destruct ((_ =? i) && _); reflexivity).
+  - rewrite mem_vec_add. destruct (i0 =? i); reflexivity.
+  - rewrite (mem_vec_remove _ _ _ Hnd). destruct (i0 =? i); reflexivity.
+Qed.
+
+Lemma port_frames_lemma ops i :
+  port_view (run ops) i = fold_left (port_view_step i) ops (false, new_port).
+Proof.
+  unfold run.
+  assert (G : forall w, inv w ->
+    port_view (fold_left (fun w o => fst (step w o)) ops w) i =
+    fold_left (port_view_step i) ops (port_view w i)).
+  { induction ops as [|o ops IH]; intros w Hw; cbn [fold_left]; [reflexivity|].
+    rewrite (IH _ (step_inv w o Hw)). f_equal. apply step_port_view. apply Hw. }
+  rewrite (G init_world inv_init). reflexivity.
+Qed.
+
+(* ---- the HTP frame does not depend on the order in which the group's members are listed ---- *)
+From Coq Require Import Sorting.Permutation.
+Lemma maxl_perm l l' : Permutation l l' -> maxl l = maxl l'.
+Proof.
+  induction 1; cbn [maxl fold_right]; try reflexivity.
+  - fold (maxl l) (maxl l'). rewrite IHPermutation. reflexivity.
+  - fold (maxl l). lia.
+  - congruence.
+Qed.
+Lemma maxlen_perm (fs fs' : list (list N)) : Permutation fs fs' -> maxlen fs = maxlen fs'.
+Proof.
+  induction 1; try reflexivity.
+  - rewrite !maxlen_cons, IHPermutation. reflexivity.
+  - rewrite !maxlen_cons. lia.
+  - congruence.
+Qed.
+Lemma slotwise_perm fs fs' : Permutation fs fs' -> slotwise_max fs = slotwise_max fs'.
+Proof.
+  intros H. apply nth_ext with (d := 0) (d' := 0).
+  - rewrite !slotwise_length. apply maxlen_perm. exact H.
+  - intros i _. rewrite !slotwise_nth. apply maxl_perm. apply Permutation_map. exact H.
+Qed.
